@@ -282,7 +282,16 @@ class Mesh:
         # default boundary names along the dimensions
         minnames = ['left', 'bottom', 'front']
         maxnames = ['right', 'top', 'back']
-        atol = np.min(self.params()) / 1e2
+        # a hundredth of the shortest edge (the longest edge of a cell says
+        # nothing about the short side of an anisotropic one)
+        if self.dim() == 3:
+            ed = self.edges
+        elif self.dim() == 2:
+            ed = self.facets
+        else:
+            ed = self.t
+        atol = np.min(np.linalg.norm(np.diff(self.p[:, ed], axis=1),
+                                     axis=0)) / 1e2
         for d in range(self.doflocs.shape[0]):
             dmin = np.min(self.doflocs[d])
             ix = self.facets_satisfying(lambda x: np.isclose(x[d],
